@@ -1,5 +1,5 @@
 """The in-kernel slice of the correspondence: a few of the histories the implementation has just run are evaluated by the
-Coq kernel itself - `vm_compute` of History.hrun, the very definitions the theorems are about, with the real FNV-1a hash -
+Coq kernel itself - `vm_compute` of History.hrun / XHistory.xh_step, the very definitions the theorems are about, with the real FNV-1a hash -
 and the abstract log of the final state is compared with the implementation's last observed scan.  This keeps the
 extraction honest: the extracted OCaml model and the kernel's evaluation of the same definitions must agree with the
 implementation on the same inputs."""
@@ -8,7 +8,7 @@ import re
 import subprocess
 import time
 
-SUPPORTED_MUT = ('open', 'close', 'pub', 'del', 'rmindex')
+SUPPORTED_MUT = ('open', 'close', 'pub', 'del', 'rmindex', 'delm', 'trimo', 'trimc', 'trima', 'cupd', 'cdel', 'migrate', 'recoverdir')
 IGNORED = ('probe', 'next', 'sync', 'stat', 'gc', 'get', 'getk', 'offk', 'gett', 'offt', 'cons', 'consk', 'size', 'files',
            'disksize', 'sleepms', 'findo', 'findc', 'finds', 'finda', 'fupd', 'fdel')
 MSG = re.compile(r'^(-?\d+)\|(-?\d+)\|([0-9a-f=-]+)\|([0-9a-f=-]+)$')
@@ -30,32 +30,46 @@ def coq_bool(x):
 
 
 def to_hops(ops):
-    """ops up to the last 'probe scan'; None when an operation is outside the slice"""
+    """ops up to the last 'probe scan' as steps of XHistory.xh_step; None when an operation is outside the slice"""
     hops = []
+    params = 'mkParams false false'
     for op in ops:
         f = op.split()
         k = f[0]
         if k == 'open':
+            params = 'mkParams %s %s' % (coq_bool(f[3]), coq_bool(f[2]))
             ro, keys, times, autosync, roll, chk, rec, ver, keeprw, eager = f[1:11]
-            hops.append('HOpen (mkCfg %s %s %s %s %s %s %s %s %s %s)' % (
+            hops.append('XBase (HOpen (mkCfg %s %s %s %s %s %s %s %s %s %s))' % (
                 coq_bool(ro), coq_bool(keys), coq_bool(times), coq_bool(autosync), coq_z(roll), coq_bool(chk), coq_bool(rec),
                 'V1' if ver == '1' else 'V2', coq_bool(keeprw), coq_bool(eager)))
         elif k == 'close':
-            hops.append('HClose')
+            hops.append('XBase HClose')
         elif k == 'pub':
             ms = []
             for t in f[1:]:
                 tm, key, val = t.split('|')
                 ms.append('mkMsg 0 %s %s %s' % (coq_z(tm), coq_bytes(key), coq_bytes(val)))
-            hops.append('HPub [%s]' % '; '.join(ms))
+            hops.append('XBase (HPub [%s])' % '; '.join(ms))
         elif k == 'del':
             offs = [] if len(f) < 2 or f[1] in ('-', '') else f[1].split(',')
-            hops.append('HDel [%s]' % '; '.join(coq_z(o) for o in offs))
+            hops.append('XBase (HDel [%s])' % '; '.join(coq_z(o) for o in offs))
         elif k == 'rmindex':
             if f[1] == 'all':
-                hops.append('HRmIndex [] true')
+                hops.append('XBase (HRmIndex [] true)')
             else:
-                hops.append('HRmIndex [%s] false' % '; '.join(coq_z(o) for o in f[1].split(',')))
+                hops.append('XBase (HRmIndex [%s] false)' % '; '.join(coq_z(o) for o in f[1].split(',')))
+        elif k == 'delm':
+            offs = [] if len(f) < 2 or f[1] in ('-', '') else f[1].split(',')
+            hops.append('XDeleteMulti [%s]' % '; '.join(coq_z(o) for o in offs))
+        elif k in ('trimo', 'trimc', 'trima', 'cupd', 'cdel'):
+            if len(f) != 2 or not re.match(r'^-?\d+$', f[1]):
+                return None
+            hops.append('%s %s' % (dict(trimo='XTrimByOffset', trimc='XTrimByCount', trima='XTrimByAge', cupd='XCompactUpdates',
+                                        cdel='XCompactDeletes')[k], coq_z(f[1])))
+        elif k == 'migrate':
+            hops.append('XBase (HMigrate (%s) %s)' % (params, 'V1' if f[1] == '1' else 'V2'))
+        elif k == 'recoverdir':
+            hops.append('XBase (HRecoverDir (%s))' % params)
         elif k in IGNORED:
             continue
         else:
@@ -85,7 +99,7 @@ def pick(parsed, limit):
         if last is None:
             continue
         hops = to_hops([o for o, _ in ops[:last]])
-        if hops is None or len(hops) > 40 or not any(h.startswith('HPub') for h in hops):
+        if hops is None or len(hops) > 40 or not any(h.startswith('XBase (HPub') for h in hops):
             continue
         res = ops[last][1]
         if kind == 'next':
@@ -121,13 +135,13 @@ def run(coqdir, parsed, pid, limit=24):
     os.makedirs(d, exist_ok=True)
     path = os.path.join(d, 'cases_%s_%d.v' % (pid, os.getpid()))
     with open(path, 'w') as fh:
-        fh.write('From KV Require Import Base Hash Model Spec SpecFacts LogInv History.\n')
-        fh.write('Definition cases : list (nat * list hop * (option (list msg) * Z)) := [\n')
+        fh.write('From KV Require Import Base Hash Model Spec SpecFacts LogInv History XHistory.\n')
+        fh.write('Definition cases : list (nat * list xop * (option (list msg) * Z)) := [\n')
         fh.write(';\n'.join('  (%d%%nat, [%s], (%s, %s))' % (i, '; '.join(h), 'None' if l is None else 'Some [%s]' % '; '.join(l), coq_z(n))
                             for i, (_, h, l, n) in enumerate(chosen)))
         fh.write('].\n')
-        fh.write('Definition agrees (c : nat * list hop * (option (list msg) * Z)) : bool :=\n'
-                 '  let a := abs (fst (hrun fnv64a init_state (snd (fst c)))) in\n'
+        fh.write('Definition agrees (c : nat * list xop * (option (list msg) * Z)) : bool :=\n'
+                 '  let a := abs (fold_left (fun s o => fst (xh_step fnv64a s o)) (snd (fst c)) init_state) in\n'
                  '  match fst (snd c) with Some l => list_eqb msg_eqb (live a) l | None => true end && (anext a =? snd (snd c)).\n')
         fh.write('Definition disagreeing : list nat := map (fun c => fst (fst c)) (filter (fun c => negb (agrees c)) cases).\n')
         fh.write('Eval vm_compute in disagreeing.\n')
